@@ -303,11 +303,35 @@ def r6(ctx, rep):
         union |= {lit_val(n) for n in walk(st["init"]) if n.get("k") == "lit"}
     rep.check(len(ext) >= 4, "tables", f"sql_keywords must be built from the engine tables (found {ext})", file=f["file"], line=f["l"], fn=f["path"])
     ora = json.load(open(os.path.join(os.path.dirname(os.path.dirname(os.path.dirname(os.path.abspath(__file__)))), "oracles", "sql_reserved.json")))
+    # per-dialect tables: the arm of dialect_keywords for that dialect -> the function it calls -> the const arrays it extends the set with
+    dk = syn.fn("keywords::dialect_keywords", crate="prqlc")
+    per_dialect = {}
+    for m in matches_of(dk["body"]):
+        for a in m["arms"]:
+            for alt in pat_alts(a["pat"]):
+                h = str(pat_head(alt))
+                if not h.startswith("Dialect::"):
+                    continue
+                words_d = set()
+                for c_ in walk(a["body"]):
+                    if c_.get("k") == "call" and c_["f"].get("k") == "path":
+                        hs = [g for g in syn.fns if g["crate"] == "prqlc" and g["file"] == dk["file"] and g["name"] == last_seg(c_["f"]["p"]) and "body" in g]
+                        for g in hs:
+                            for e_ in walk(g["body"]):
+                                if e_.get("k") == "mcall" and e_["m"] == "extend" and e_["a"] and e_["a"][0].get("k") == "path" and last_seg(e_["a"][0]["p"]) in consts:
+                                    words_d |= {lit_val(n) for n in walk(consts[last_seg(e_["a"][0]["p"])]["init"]) if n.get("k") == "lit"}
+                per_dialect[last_seg(h)] = words_d
+    dgroups = ora.get("_dialect_groups", {})
     for group, words in ora.items():
         if group.startswith("_"):
             continue
+        have = union | per_dialect.get(dgroups.get(group, ""), set()) if group in dgroups else union
         for w in words:
             why = "bare, it is a niladic function call, not the column" if group == "niladic_functions" else f"it is reserved ({group})"
+            if group in dgroups:
+                rep.check(w in have, f"reserved:{group}:{w}", f"`{w}` is neither in the shared keyword tables nor in the table dialect_keywords gives for Dialect::{dgroups[group]}: a column or table "
+                          f"of that name is emitted unquoted for that target although {why}", file=dk["file"], line=dk["l"], fn=dk["path"])
+                continue
             rep.check(w in union, f"reserved:{group}:{w}", f"`{w}` is missing from the keyword tables sql_keywords() is built from: a column or table of that name is emitted unquoted although {why}",
                       file=f["file"], line=f["l"], fn=f["path"])
 
